@@ -104,17 +104,36 @@ Theorem C09_add_names_total ns A :
 Proof. exact (add_names_total ns A). Qed.
 Print Assumptions C09_add_names_total.
 
-(* two signals a, an anonymous subfragment of type a at index 0 and one named a: names a, a$1, a$0, a$3 *)
+(* two signals a, an anonymous subfragment of type a at index 0 and one named a: names a, a$1, a$0, a$3;
+   all hypotheses of C09_names_total hold for it *)
 Example C09_names_example :
   let sigs := [(0, n_a); (1, n_a)] in
   let subs := [(None, n_a); (Some n_a, n_b)] in
+  bounded (fst (fst (reserve_ports []))) /\
   Forall (fun c => plain (snd c)) sigs /\
+  Forall (fun s => match fst s with Some n => plain n | None => True end) subs /\
   option_map (fun r => (vals (nm_signals r), nm_subs r)) (assign_names [] sigs [] subs)
   = Some ([[97]; [97; 36; 49]], [[97; 36; 48]; [97; 36; 51]]).
 Proof.
-  split; [|vm_compute; reflexivity].
-  repeat constructor; intros s k Hk E; simpl in E; apply (f_equal (@rev Z)) in E;
-    rewrite !rev_app_distr in E; simpl in E; destruct (rev (dec k)) as [|? [|? ?]]; simpl in E; discriminate.
+  assert (P : plain n_a).
+  { intros s k Hk E; simpl in E; apply (f_equal (@rev Z)) in E;
+    rewrite !rev_app_distr in E; simpl in E; destruct (rev (dec k)) as [|? [|? ?]]; simpl in E; discriminate. }
+  split; [apply plain_bounded; constructor|]. split; [repeat constructor; exact P|].
+  split; [repeat constructor; exact P|vm_compute; reflexivity].
+Qed.
+
+(* top fragment with ports a (signal 0, named a) and b (signal 1, named a): signal 0 shares the port name,
+   signal 1 and a third signal a get a$2, a$3; the hypotheses of C09_names_unique / C09_add_names_unique hold *)
+Example C09_names_unique_example :
+  let tports := [(n_a, 0, n_a, false); (n_b, 1, n_a, false)] in
+  NoDup (map pname tports) /\
+  option_map (fun r => nm_signals r) (assign_names tports [(0, n_a); (1, n_a); (2, n_a)] [] [])
+  = Some [(0, [97]); (1, [97; 36; 50]); (2, [97; 36; 51])] /\
+  NoDup [n_a] /\ add_names [n_a] [n_a; n_b; n_a] = Some ([[97; 36; 49]; [98]; [97; 36; 51]], [[97]; [97; 36; 49]; [98]; [97; 36; 51]]) /\
+  assign_port_names [(None, n_a); (Some n_b, n_a); (None, n_a)] = Ok [[97]; [98]; [97; 36; 50]].
+Proof.
+  split; [repeat constructor; simpl; intuition discriminate|]. split; [vm_compute; reflexivity|].
+  split; [repeat constructor; simpl; tauto|]. split; vm_compute; reflexivity.
 Qed.
 
 (* S3: signals named a, a$2, a in one fragment — the faithful model hits the assertion, so
@@ -174,8 +193,8 @@ Qed.
 
 (* ------------------------------------------------------------------ (4) Simulator.reset() *)
 (* for EVERY engine state (reachable or not): after reset() every observed field — signal values, memory
-   rows and queued writes, pending set, time, scheduled wake-ups, process flags and coroutine positions,
-   clock phases — equals that of a freshly constructed simulator of the same design *)
+   rows and queued writes, pending set, time, scheduled wake-ups, active triggers, process flags and
+   coroutine positions, clock phases — equals that of a freshly constructed simulator of the same design *)
 Theorem C09_reset_restores_init e : observe (reset e) = observe (fresh e).
 Proof. exact (reset_restores_init e). Qed.
 Print Assumptions C09_reset_restores_init.
@@ -204,20 +223,32 @@ Example C09_reset_example :
   observe (reset s5_engine) = observe (fresh s5_engine) /\ observe s5_engine <> observe (fresh s5_engine).
 Proof. split; [vm_compute; reflexivity|vm_compute; discriminate]. Qed.
 
-(* what reset() leaves alone: _delta_cycles, _active_triggers, the waker lists of the slots *)
+(* what reset() leaves alone: _delta_cycles (VCD time stamps) and the waker lists of the slots *)
 Theorem C09_reset_frame e :
-  e_delta (reset e) = e_delta e /\ e_active (reset e) = e_active e /\
+  e_delta (reset e) = e_delta e /\
   map slot_wakers (e_slots (reset e)) = map slot_wakers (e_slots e).
 Proof. exact (reset_frame e). Qed.
 Print Assumptions C09_reset_frame.
 
-(* S5: hence reset() is NOT a return to the constructor state: a trigger that was active when the run
-   stopped survives; the real step_design reads it (so the hypothesis of C09_reset_rerun_same_trace fails
-   for the real engine) and re-arms its delay waker: advance() stops at one more point in time *)
-Theorem C09_reset_not_fresh_refuted : exists e, reset e <> fresh e /\ e_active (reset e) <> [].
-Proof. exact reset_not_fresh_refuted. Qed.
-Print Assumptions C09_reset_not_fresh_refuted.
+(* S5 (fixed by 3953703): reset() empties _active_triggers, so for every state, every set of fresh deadlines
+   and every number of advance() calls the rerun stops at the same instants as a fresh simulator *)
+Theorem C09_reset_rerun_same_stops e ws n :
+  e_active (reset e) = [] /\ stops n (rearm 0 (e_active (reset e)) ws) = stops n ws.
+Proof. split; [exact (reset_clears_active e)|exact (reset_rerun_same_stops e ws n)]. Qed.
+Print Assumptions C09_reset_rerun_same_stops.
 
-Theorem C09_reset_rerun_stops_refuted : exists stale ws n, stops n (rearm 0 stale ws) <> stops n ws.
-Proof. exact reset_rerun_stops_refuted. Qed.
-Print Assumptions C09_reset_rerun_stops_refuted.
+(* the reset() of the tree before the fix (kept _active_triggers) violates both statements *)
+Theorem C09_reset_keeping_triggers_refuted :
+  exists e ws n, observe (reset_keeping_triggers e) <> observe (fresh e) /\
+                 stops n (rearm 0 (e_active (reset_keeping_triggers e)) ws) <> stops n ws.
+Proof. exact reset_keeping_triggers_refuted. Qed.
+Print Assumptions C09_reset_keeping_triggers_refuted.
+
+(* the port-name set left by _assign_port_names (initial set ++ generated names) is `bounded` when the set it
+   started from is and no unnamed port's signal has a name of the form s$<number>: the first hypothesis of
+   C09_names_total is what _assign_port_names establishes *)
+Theorem C09_port_names_bounded ports A l :
+  bounded A -> Forall (fun p => fst p = None -> plain (snd p)) ports ->
+  port_names_go A ports = Ok l -> bounded (A ++ gen_ports ports l).
+Proof. exact (port_names_go_bounded ports A l). Qed.
+Print Assumptions C09_port_names_bounded.
